@@ -101,6 +101,13 @@ func next(tag, kind string) rec {
 		// values the model did not constrain
 		return rec{Tag: tag, Kind: kind}
 	}
+	// clock readings / random draws of code that is not hooked natively are skipped
+	for pos < len(recs) && (recs[pos].Kind == "time" || recs[pos].Kind == "rand") && recs[pos].Kind != kind {
+		pos++
+	}
+	if pos >= len(recs) {
+		return rec{Tag: tag, Kind: kind}
+	}
 	r := recs[pos]
 	pos++
 	if r.Tag != tag || r.Kind != kind {
